@@ -25,9 +25,26 @@ CHECKS = {
          "All call scripts of length <= 3 over {same object, fresh object} x {prune, no prune} are sampled per game; TLC checks the description's canonical text is unchanged after every call and every repeated call returns the identical result (DescFrozen, Repeatable).", "7 C10"),
  "C13": ("TLC trace validation of pairs of presentations (TLC-generated renumbering / reordering / renaming; TLC verifies the transformation and compares the two runs)",
          "For each sampled game and presentation change TLC checks descs[2] = TransformGame(descs[1], rel), then that solvability, zero set, probabilities, rewards (within 2 eps H) and clearly decided strategies correspond under the renaming.", "7 C13"),
+ "C07": ("TLC trace validation of reverse_dfs / reverse_transition_list on TLC-enumerated and sampled graphs (exact least fixed point in TLA+) and on large graphs (O(edges) certificate clause checked by TLC)",
+         "All graphs with 2 states (and, in thorough, 3 states) and <= 2 edges per state x all final sequences of length <= 3 with repetition are enumerated by TLC; 3-8 state graphs are sampled; chains of thousands of states, diamonds, random graphs and the committed inputs are checked with a certificate that TLC verifies locally. Returned list must be strictly ascending and equal the backward-reachable non-final set; the reversed table must have every key and the right multiplicities.", "7 C07"),
+ "C09": ("TLC generation of every malformation (12 documented rules x every position x boundary / ill-typed values, module Malformed) + TLC trace validation of the outcome of solve() and of run_games",
+         "For each base game every way of breaking one rule at one position is generated by TLC, which also re-checks that the named rule is really violated; the real solver must raise ValueError in both modes and the batch runner must record the message and still solve the other games.", "7 C09"),
+ "C12": ("model checking of the batch protocol (Batch.tla, with two counter-models) + TLC trace validation of run_games on TLC-generated ordered dictionaries against solo runs",
+         "The run_games loop is a TLA+ state machine (RunPruned / RunUnpruned / SkipUnpruned with the per-game flag); TLC checks Isolation, FailureProtocol, KeysAndOrder and termination on all dictionaries of <= 3 abstract games and shows that the no-copy and sticky-flag variants violate them. Every recorded batch run is replayed through the machine and each entry compared field by field with solving that game alone.", "7 C12"),
+ "C16": ("TLC trace validation of the saved report, the reader and the command line against module Report (fixed field list, block order, text of every value)",
+         "For every generated dictionary the input file is written in two textual styles, read back with the repository's reader (digest equality per game), run, saved (API and CLI); TLC checks the file name, block count and order, the label list and that every line's text equals the text form of the batch entry's value, and that 'Are equal' is the equality of the two strategy lists.", "7 C16"),
  "C14": ("TLC trace validation of the two diagnostic vectors against exact Markov-chain / one-player values under the reported strategies",
          "Where every reported final strategy in the domain is a single undisputed action, TLC computes the reach probability under both final strategies and the min-reward value with Player 2 restricted to its reachability strategy, and compares within eps*H.", "7 C14"),
 }
+
+ENGINE = {}
+NOTES = {
+ "C07": "Trusted: TLC, the JVM, the harness projection. For graphs above 300 states exactness is established by a certificate (ranks) that the harness proposes and TLC verifies; termination is observed with a 120 s budget.",
+ "C09": "Trusted: TLC, the JVM, the decoder of the tagged Python values (vlib/jobs_extra.py: decode). Only the kinds of ill-typed value the property lists are generated; messages are not compared.",
+ "C12": "Trusted: TLC, the JVM, the harness (it also computes the solo results by calling the real solver on fresh deep copies - the spec supplies the protocol, not the numbers). Values are compared through digests of their repr.",
+ "C16": "Trusted: TLC, the JVM, the harness's report parser (label / text split at the first ': '). Wall-clock lines are excluded.",
+}
+
 
 def main():
     m = {
@@ -46,7 +63,13 @@ def main():
       {"name": "tlc-behaviour-generation", "path": "spec/Gen_Main.tla", "serves_properties": sorted(CHECKS),
        "kind_free_text": "TLC generates game descriptions, call scripts and presentation changes"},
       {"name": "tlc-model-checking", "path": "spec/MC_Solver.tla", "serves_properties": ["C02", "C03", "C05", "C06", "C10"],
-       "kind_free_text": "design-level model checking of the pipeline state machine (spec/Solver.tla)"}
+       "kind_free_text": "design-level model checking of the pipeline state machine (spec/Solver.tla)"},
+      {"name": "tlc-batch", "path": "spec/Batch.tla", "serves_properties": ["C12", "C16"],
+       "kind_free_text": "batch protocol model (MC_Batch*.cfg) and trace validation (spec/Trace_Batch.tla, spec/Report.tla)"},
+      {"name": "tlc-graphs", "path": "spec/ReverseDFS.tla", "serves_properties": ["C07"],
+       "kind_free_text": "graph generation (spec/Gen_Graphs.tla) and trace validation (spec/Trace_RevDFS.tla)"},
+      {"name": "tlc-malformed", "path": "spec/Malformed.tla", "serves_properties": ["C09"],
+       "kind_free_text": "malformation generation (spec/Gen_MalMain.tla) and trace validation (spec/Trace_Malformed.tla)"}
      ],
      "checks": [],
      "notes": "run.py exit codes: 0 held / 1 VIOLATION / 2 machinery failure. Known findings: known_findings.json.",
@@ -60,9 +83,9 @@ def main():
             "thorough_cmd": "./run.py check %s --thorough" % pid,
             "evidence_file": "/verif/evidence/%s.json" % pid,
             "replay_cmd_template": "./run.py replay {path}",
-            "engine": "tlc-trace-validation",
+            "engine": ENGINE.get(pid, "tlc-trace-validation"),
             "level_claimed": {"category": "model_checking", "text": text, "design_ref": "DESIGN.md section " + ref},
-            "level_note": SOLVER_NOTE,
+            "level_note": NOTES.get(pid, SOLVER_NOTE),
             "technique": tech,
         })
     allp = ["C%02d" % i for i in range(1, 18)]
